@@ -45,6 +45,7 @@ CONSTANTS
     GenesisMax,                 \* MaxAuthorize set for the genesis peers during set-up
     Fund,                       \* [Addrs -> Nat]: ONT of every account after set-up
     RegPos, AuthPos, UnAuthPos, WdPos, InitDelta, FeeVals, CostVals, MaxVals,   \* argument domains of the actions
+    UnAuthEdges,                \* un-authorize also the amounts at the boundaries of the record it addresses (UnAuthBoundary)
     Authorizers, AuthTargets,   \* who authorizes / for which peers (model bound)
     OpTargets,                  \* peers addressed by quit / black / init-pos / cost calls (model bound)
     Acts,                       \* enabled action names
@@ -315,6 +316,13 @@ UnAuthorizeOK(a, p, x) ==
        /\ pool[p].st \in {CandSt, ConsSt}
        /\ (b.n < y /\ pool[p].st = ConsSt) => b.c >= y - b.n
        /\ (b.n < y /\ pool[p].st = CandSt) => b.d >= y - b.n
+\* the amounts at which unAuthorizeForPeer changes its branch for the record b on a node of status st: below the fresh
+\* NewPos, exactly NewPos, between NewPos and NewPos + committed pos (ConsensusPos on a consensus node, CandidatePos on a
+\* candidate node; the fresh part is unfrozen at once, the rest is taken from the committed bucket and frozen), exactly
+\* the sum, and one step beyond it (refused)
+UnAuthBoundary(b, st) ==
+    LET com == IF st = ConsSt THEN b.c ELSE b.d
+    IN {x \in {b.n - MinAuth, b.n, b.n + MinAuth, b.n + com, b.n + com + MinAuth} : x >= 1}
 UnAuthorize(a, p, x) ==
     LET b == au[p][a]
         y == UnAuthAmt(a, p, x)
@@ -442,7 +450,8 @@ Next ==
        \/ \E ad \in Authorizers, p \in AuthTargets, x \in AuthPos : On("Authorize") /\
             LET a == [name |-> "Authorize", a |-> ad, p |-> p, x |-> x, ok |-> TRUE]
             IN IF AuthorizeOK(ad, p, x) THEN Authorize(ad, p, x) /\ Step(a) ELSE Failing(a)
-       \/ \E ad \in Authorizers, p \in AuthTargets, x \in UnAuthPos : On("UnAuthorize") /\ BkSum(au[p][ad]) > 0 /\
+       \/ \E ad \in Authorizers, p \in AuthTargets :
+          \E x \in UnAuthPos \cup (IF UnAuthEdges THEN UnAuthBoundary(au[p][ad], pool[p].st) ELSE {}) : On("UnAuthorize") /\ BkSum(au[p][ad]) > 0 /\
             LET a == [name |-> "UnAuthorize", a |-> ad, p |-> p, x |-> x, ok |-> TRUE]
             IN IF UnAuthorizeOK(ad, p, x) THEN UnAuthorize(ad, p, x) /\ Step(a) ELSE Failing(a)
        \/ \E ad \in Addrs, p \in Peers, x \in WdPos : On("Withdraw") /\ BkSum(au[p][ad]) > 0 /\
